@@ -225,6 +225,7 @@ class SLE(Equilibrium, phases='ls'):
                 self._solid_mol[solute_index] + self._liquid_mol[solute_index]
             )
             self._index = slice(None)
+            self._nonzero = None # The index set up for computed solubilities is gone
             self._update_solubility(solubility)
             if T_given:
                 thermal_condition.T = T
